@@ -180,11 +180,13 @@ def eval_with(e, node, st, old, env):
     e.nofork += 1
     saved = e.spec_mode
     e.spec_mode = True
+    e.in_code_comp = getattr(e, "in_code_comp", 0) + 1      # code of the repository evaluated in spec mode
     try:
         return e.ev(node, st2, old)
     finally:
         e.nofork -= 1
         e.spec_mode = saved
+        e.in_code_comp -= 1
 
 
 def comp_hook(e, n, st, old):
